@@ -63,6 +63,7 @@ namespace sim
     SchedParams sched;
     std::vector<uint32_t> script; // storage for sched.script
     std::string note;         // free text from the generator (probe labels)
+    bool noref = false;       // exclude from the stateless reference oracle
   };
 
   struct FileEffect
@@ -84,6 +85,7 @@ namespace sim
     std::vector<FileEffect> fx;
     std::string out;          // tool stdout
     std::string err;          // tool stderr
+    std::map<std::string, std::string> written; // files a tool wrote (path -> bytes)
     int rc = 0;
     bool engine_ok = true;    // engine model comparison
     bool engine_checked = false;
